@@ -142,7 +142,8 @@ class C18(Plugin):
     entry = 18
     prop = 18
     counts = {"quick": 160, "thorough": 15000}
-    rule = ("case = (strict converter with URI-prefix synonyms, a few of them containing characters rdflib rejects in IRIs; 3 queries (URI, "
+    rule = ("case = (strict converter with URI-prefix synonyms, a few of them containing characters rdflib rejects in IRIs; the graph configured with one of nine kinds of "
+            "`predicates` argument (None, str, URIRef, list, tuple, set, frozenset, keys view; one or two predicates); 3 queries (URI, "
             "configured predicate or another predicate), each issued four ways: ?s bound / ?o bound x VALUES inside / after the WHERE block, through "
             "graph.query with the custom processor; the first query also through Flask GET and POST and FastAPI GET; 12 Accept headers from an "
             "RFC 7231 generator over supported, synonym and unsupported media types with q-values, parameters, upper-case Q and optional "
